@@ -53,6 +53,15 @@ pub struct Request {
     /// [IntrospectionMode::Enabled]).
     #[serde(skip)]
     pub introspection_mode: IntrospectionMode,
+
+    /// When `true`, the request is answered with an error instead of being
+    /// executed if the selected operation is a mutation (defaults to
+    /// `false`).
+    ///
+    /// Requests decoded from an HTTP GET query string set this, because GET
+    /// requests must not be used to execute mutations.
+    #[serde(skip)]
+    pub disallow_mutations: bool,
 }
 
 impl Request {
@@ -67,6 +76,7 @@ impl Request {
             extensions: Default::default(),
             parsed_query: None,
             introspection_mode: IntrospectionMode::Enabled,
+            disallow_mutations: false,
         }
     }
 
@@ -103,6 +113,15 @@ impl Request {
     #[must_use]
     pub fn only_introspection(mut self) -> Self {
         self.introspection_mode = IntrospectionMode::IntrospectionOnly;
+        self
+    }
+
+    /// Reject mutation operations for this request.
+    ///
+    /// This is what a request received over HTTP GET must use.
+    #[must_use]
+    pub fn disallow_mutations(mut self) -> Self {
+        self.disallow_mutations = true;
         self
     }
 
